@@ -157,3 +157,33 @@ def deliveredT (Γ : Env) (ρ : Store) (t : Ty) : Bind → Option (List J)
     | _ => none
 
 end Martian.Typing
+
+namespace Martian.Typing
+open Martian.Json Martian.Types
+
+/-- the hypothesis of the run-time soundness of a binding: C17's `noHole` at
+every reference; for `split REF` at the type of the whole collection (`t[]` /
+`map<t>`), because that is the destination the resolver is given -/
+def bindHoleFreeT (Γ : Env) (t : Ty) : Bind → Bool
+  | .plain e => holeFree Γ t (bindExp Γ t e)
+  | .split (.arr xs) => xs.toList.all (fun x => holeFree Γ t x)
+  | .split (.map _ kvs) => kvs.toList.all (fun kv => holeFree Γ t kv.2)
+  | .split e =>
+    match refType Γ e with
+    | some (.arr s) => noHole (.arr t) (.arr s)
+    | some (.tmap s) => noHole (.tmap t) (.tmap s)
+    | _ => true
+
+/-- the struct of outputs a pipeline call delivers, as the run time resolves
+the return bindings: every declared output at its declared type -/
+def retValueT (Γ : Env) (ρ : Store) (bs : List (Bytes × Bind)) : Fields → Option (List (Bytes × J))
+  | .nil => some []
+  | .cons k t r =>
+    match bs.lookup k with
+    | some (.plain e) =>
+      match evalT Γ ρ t (bindExp Γ t e), retValueT Γ ρ bs r with
+      | some v, some vs => some ((k, v) :: vs)
+      | _, _ => none
+    | _ => none
+
+end Martian.Typing
